@@ -209,10 +209,16 @@ func makeItem(r *core.Rand) (eth.Block, map[string]ctxVal) {
 	tx.From = r.Bytes(20)
 	cv["tx_signer"] = ctxVal{kind: 'x', b: tx.From}
 	tx.To = r.Bytes(20)
+	if r.Chance(1, 4) {
+		tx.To = []byte{} // a contract creation: no recipient
+	}
 	cv["tx_to"] = ctxVal{kind: 'x', b: tx.To}
 	tx.Data = r.Bytes(r.Intn(40))
 	cv["tx_input"] = ctxVal{kind: 'x', b: tx.Data}
 	tx.ContractAddress = r.Bytes(20)
+	if len(tx.To) > 0 && r.Chance(2, 3) {
+		tx.ContractAddress = []byte{} // an ordinary transaction creates no contract
+	}
 	cv["tx_contract_address"] = ctxVal{kind: 'x', b: tx.ContractAddress}
 	set256(&tx.Value, "tx_value")
 	set256(&tx.GasPrice, "tx_gas_price")
